@@ -174,10 +174,14 @@ Qed.
 
 Corollary no_start_after_suspend_returned rb ina s :
   0 <= rb < 2 -> reach rb ina s -> 0 < susp_done s ->
+  suspended_word (st s) = true /\
   0 <= pstarts s <= 1 /\
   (pstarts s = 1 -> plic s = true /\ forall t, licensed_pc (pcs s t) = false) /\
   (forall t, licensed_pc (pcs s t) = true -> plic s = true /\ pstarts s = 0).
-Proof. intros Hrb R Hs. apply (no_start_while_suspended rb ina s Hrb R). apply (suspended_while_owed rb ina s Hrb R Hs). Qed.
+Proof.
+  intros Hrb R Hs. pose proof (suspended_while_owed rb ina s Hrb R Hs) as S. split; [exact S|].
+  apply (no_start_while_suspended rb ina s Hrb R S).
+Qed.
 
 (* the suspending RMW of the fast path defines the period: plic records whether a drainer was licensed at that instant *)
 Theorem suspend_commit_starts_period rb ina s t s' :
